@@ -70,6 +70,7 @@ type vCase06 struct {
 	Via  string `json:"via"` // "value": certificate values built by the harness; "parsed": DER through yubiattest.ParseCertificate
 	Lab  string `json:"lab"` // the encoded algorithm label (via = "parsed")
 	Sch  string `json:"sch"` // the scheme the signature value was made under
+	Now  int    `json:"now"` // epoch of the call: 0 = the epoch in which the long-lived Attestor was constructed, 1 = after the lapse second
 }
 
 type vRes06 struct {
@@ -686,24 +687,28 @@ func cryptoHash(h string) crypto.Hash {
 // ---------------------------------------------------------------------------------------------
 
 type vStats06 struct {
-	mu        sync.Mutex
-	Events    int            `json:"events"`
-	A         int            `json:"a_cases"`
-	B         int            `json:"b_cases"`
-	Calls     int            `json:"a_calls"`
-	Primed    int            `json:"primed"`
-	Pred      int            `json:"predecessors"`
-	PredAcc   int            `json:"predecessors_accepted"`
-	Cross     int            `json:"cross_cases"`
-	CrossAcc  int            `json:"cross_accepted"`
-	TwinCalls int            `json:"twin_calls_on_used"`
-	Unreal    int            `json:"unrealisable"`
-	Accepted  int            `json:"accepted"`
-	Panics    int            `json:"panics"`
-	Distinct  map[string]int `json:"-"`
-	NDist     int            `json:"distinct"`
-	KeyGenS   float64        `json:"keygen_s"`
-	Bits      []int          `json:"bits"`
+	mu             sync.Mutex
+	Events         int            `json:"events"`
+	A              int            `json:"a_cases"`
+	B              int            `json:"b_cases"`
+	Calls          int            `json:"a_calls"`
+	Primed         int            `json:"primed"`
+	Epoch0         int            `json:"epoch0_calls"`
+	Epoch1         int            `json:"epoch1_calls"`
+	Epoch1Acc      int            `json:"epoch1_accepted"`
+	EpochDiscarded int            `json:"epoch_instances_discarded"`
+	Pred           int            `json:"predecessors"`
+	PredAcc        int            `json:"predecessors_accepted"`
+	Cross          int            `json:"cross_cases"`
+	CrossAcc       int            `json:"cross_accepted"`
+	TwinCalls      int            `json:"twin_calls_on_used"`
+	Unreal         int            `json:"unrealisable"`
+	Accepted       int            `json:"accepted"`
+	Panics         int            `json:"panics"`
+	Distinct       map[string]int `json:"-"`
+	NDist          int            `json:"distinct"`
+	KeyGenS        float64        `json:"keygen_s"`
+	Bits           []int          `json:"bits"`
 }
 
 func (s *vStats06) note(e *vE06) {
@@ -726,7 +731,7 @@ func (s *vStats06) note(e *vE06) {
 	if e.Res.Pan {
 		s.Panics++
 	}
-	key := fmt.Sprintf("%s|%s|%s|%s|%s|%d|%s|%s|%s|%s|%s|%v|%s|%d|%s|%v|%d", e.Via, e.Lab, e.Sch, e.Hist, e.Kt, e.Alg, e.Rel, e.Time, e.Sf, e.Mut, e.Em.Shape, e.Em.Pfx, e.Em.Dgh, e.Em.Dgj, e.Em.Lead+e.Em.Bt+e.Em.Psf+e.Em.Psm+e.Em.Psl+e.Em.Sep+e.Em.Dgv, e.Res, e.K)
+	key := fmt.Sprintf("%d|%s|%s|%s|%s|%s|%d|%s|%s|%s|%s|%s|%v|%s|%d|%s|%v|%d", e.Now, e.Via, e.Lab, e.Sch, e.Hist, e.Kt, e.Alg, e.Rel, e.Time, e.Sf, e.Mut, e.Em.Shape, e.Em.Pfx, e.Em.Dgh, e.Em.Dgj, e.Em.Lead+e.Em.Bt+e.Em.Psf+e.Em.Psm+e.Em.Psl+e.Em.Sep+e.Em.Dgv, e.Res, e.K)
 	s.Distinct[key]++
 }
 
@@ -759,6 +764,28 @@ func TestVerifAttest06(t *testing.T) {
 	for name, d := range devs {
 		w.prime(d, name, tr, st)
 	}
+	// time: the epoch-0 phase of the epoch instance runs now, its epoch-1 phase after everything else
+	var ecases []vCase06
+	var eidx []int
+	for ci := range plan.Cases {
+		ecases = append(ecases, plan.Cases[ci].C)
+		if t := plan.Cases[ci].C.Time; t == "lapsing" || t == "becoming" {
+			eidx = append(eidx, ci)
+		}
+	}
+	var edevs []*vDev
+	for _, b := range plan.Bits {
+		if b >= 2048 && b <= 3072 {
+			edevs = append(edevs, devs[fmt.Sprintf("rsa/%d", b)])
+		}
+	}
+	if len(edevs) == 0 {
+		edevs = append(edevs, devs[fmt.Sprintf("rsa/%d", plan.Bits[0])])
+	}
+	var epoch *vEpoch
+	if len(eidx) > 0 {
+		epoch = w.startEpoch(w.prepareEpoch(ecases, eidx, edevs), edevs, tr, st)
+	}
 	type job struct {
 		ci   int
 		bits int
@@ -788,6 +815,9 @@ func TestVerifAttest06(t *testing.T) {
 		}(wi)
 	}
 	for ci := range plan.Cases {
+		if t := plan.Cases[ci].C.Time; t == "lapsing" || t == "becoming" {
+			continue // run by the epoch instance
+		}
 		if plan.Cases[ci].C.Via == "parsed" {
 			for _, b := range plan.Bits {
 				if b >= 1536 && b <= 3072 { // RSASSA-PSS with SHA-512 does not fit a 1024-bit key
@@ -820,6 +850,9 @@ func TestVerifAttest06(t *testing.T) {
 			w.runB(devs[fmt.Sprintf("rsa/%d", b)], plan.NFlip, only, tr, st)
 		}
 		w.runBNonRSA(devs, only, tr, st)
+	}
+	if epoch != nil {
+		epoch.finish(tr, st)
 	}
 	if err := tr.Close(); err != nil {
 		t.Fatal(err)
